@@ -977,6 +977,9 @@ def stress_defs(prefix='K'):
     defs.append(cfz)
     defs.append(Def(prefix + 'R1', False, 'none', [], 1, [], [], [(prefix + 'R1', 'named', [('r#type', P('u8')), ('r#loop', ('ty', Str())), ('plain', P('u16'))])]))
     defs.append(Def(prefix + 'R2', False, 'zero', ['C'], 1, [], [], [(prefix + 'R2', 'named', [('r#match', P('u32')), ('r#fn', P('u8'))])]))
+    # round 9: deep-copy enums that are zero-sized in memory (one data-less variant) but written with their tag
+    defs.append(Def(prefix + 'SV1', True, 'none', [], 1, [], [], [('A', 'unit', [])]))
+    defs.append(Def(prefix + 'SV2', True, 'none', [], 1, [], [], [('Only', 'tuple', [('g0', P('unit'))])]))
     defs.append(Def(prefix + 'RC1', False, 'zero', ['align(16)', 'C'], 16, [], [], [(prefix + 'RC1', 'named', [('a', P('u8')), ('b', P('u32'))])]))
     defs.append(Def(prefix + 'RC2', False, 'zero', ['align(8)', 'C'], 8, [], [], [(prefix + 'RC2', 'tuple', [('f0', P('u16')), ('f1', P('u8'))])]))
     many = [('V%d' % k, 'unit', []) for k in range(260)]
